@@ -266,3 +266,96 @@ Example ex_variants :
   /\ multiplex_sorted ex_world [ex_repo; [(ex_a, [(ex_x, [3; 1]%N)])]] MVersioned r
      = Some [PV ex_a ex_x 1%N; PV ex_a ex_x 1%N; PV ex_a ex_x 2%N; PV ex_a ex_x 3%N].
 Proof. vm_compute. repeat split. Qed.
+
+(* ------------------------------------------------------------------ bare tuples outside the known class *)
+Lemma pl_leaves r : forall b x, In x (pl b r) -> In (snd x) (leaves r).
+Proof.
+  apply (RestrInd.restr_ind' (fun r => forall b x, In x (pl b r) -> In (snd x) (leaves r))).
+  - intros n i b x H. cbn in H. destruct (b && n); [destruct H|]. destruct H as [<-|[]]. now left.
+  - intros b0 b x [].
+  - intros r' _ b x [].
+  - intros k n cs IH b x H. rewrite Forall_forall in IH. cbn [leaves].
+    assert (Hg : In x (flat_map (pl true) cs) -> In (snd x) (flat_map leaves cs)).
+    { intros H'. apply in_flat_map in H' as [ch [Hch Hx]]. apply in_flat_map. exists ch. split; [assumption|].
+      exact (IH ch Hch true x Hx). }
+    destruct k; destruct n; cbn in H; try contradiction; auto.
+Qed.
+
+Lemma eval_leaffree e1 e2 r : leaves r = [] -> eval e1 r = eval e2 r.
+Proof.
+  revert r. apply (RestrInd.restr_ind' (fun r => leaves r = [] -> eval e1 r = eval e2 r)).
+  - intros n i H. discriminate.
+  - reflexivity.
+  - intros r' IH H. cbn. f_equal. apply IH. exact H.
+  - intros k n cs IH H. cbn [eval]. f_equal. apply RestrInd.map_ext_Forall'.
+    rewrite Forall_forall in *. intros ch Hch. apply IH; [assumption|].
+    cbn [leaves] in H. destruct (leaves ch) as [|i l] eqn:E; [reflexivity|]. exfalso.
+    assert (Hi : In i (flat_map leaves cs)) by (apply in_flat_map; exists ch; split; [assumption|rewrite E; now left]).
+    rewrite H in Hi. destruct Hi.
+Qed.
+
+Lemma leaffree_candidates w R r cs c p : leaves r = [] ->
+  In c (categories R) -> In p (packages_get R c) -> candidates w R r = Some cs -> In (c, p) cs.
+Proof.
+  intros Hl Hc Hp Hcs. unfold candidates in Hcs.
+  assert (Hpl : forall b, pl b r = []).
+  { intros b. destruct (pl b r) as [|x l] eqn:E; [reflexivity|]. exfalso.
+    assert (H : In (snd x) (leaves r)) by (apply (pl_leaves r b); rewrite E; now left). rewrite Hl in H. destruct H. }
+  destruct (atom_key w r) as [k|] eqn:Ek.
+  - exfalso. destruct r as [| | |[] [] chs]; try discriminate. cbn in Ek.
+    destruct (first_some (leaf_exact w true) chs) as [c0|] eqn:E1; [|discriminate].
+    destruct (first_some_leaf w true chs c0 E1) as [i [Hi _]]. cbn [leaves] in Hl.
+    assert (H : In i (flat_map leaves chs)) by (apply in_flat_map; exists (Leaf false i); split; [assumption|now left]).
+    rewrite Hl in H. destruct H.
+  - assert (Hfast : In (c, p) (fast w R r)) by (apply fast_sound_nocoll; auto).
+    destruct r as [n i|b|r'|k n chs]; cbn [identify] in Hcs; try (injection Hcs as <-; exact Hfast).
+    assert (Hd : identify_dnf w R (Node k n chs) = Some cs -> In (c, p) cs).
+    { unfold identify_dnf. destruct (Proofs_C06.dnf_never_refuses_proof true (Node k n chs)) as [s [Hs Hne]].
+      rewrite Hs. replace (existsb _ (map (clause_cp w) s)) with true.
+      - intros H. injection H as <-. now apply in_cps_of.
+      - symmetry. destruct s as [|cl s]; [congruence|]. cbn [map existsb].
+        assert (E : flat_map (pl true) cl = []).
+        { destruct (flat_map (pl true) cl) as [|x l] eqn:E; [reflexivity|]. exfalso.
+          assert (H : In x (pl true (Node k n chs))).
+          { apply (clause_leaf_in_tree (Node k n chs) (cl :: s) cl x Hs); [now left|rewrite E; now left]. }
+          rewrite Hpl in H. destruct H. }
+        unfold clause_cp. rewrite E. reflexivity. }
+    destruct k; try exact (Hd Hcs). injection Hcs as <-. exact Hfast.
+Qed.
+
+Lemma universe_intro R m c ps p vs o : In (c, ps) R -> In (p, vs) ps ->
+  match m with
+  | MVersioned => exists v, o = PV c p v /\ In v vs
+  | MUnvCPV => o = PU c p /\ vs <> []
+  | MUnvTuple => o = PT c p /\ vs <> []
+  end -> In o (universe R m).
+Proof.
+  intros Hc Hp Ho. unfold universe. apply in_flat_map. exists (c, ps). split; [assumption|].
+  apply in_flat_map. exists (p, vs). split; [assumption|]. cbn [fst snd]. destruct m.
+  - destruct Ho as [v [-> Hv]]. now apply in_map.
+  - destruct Ho as [-> Hne]. destruct vs; [congruence|now left].
+  - destruct Ho as [-> Hne]. destruct vs; [congruence|now left].
+Qed.
+
+Theorem unversioned_tuple_partial_proof : forall w R r got,
+  repo_wf R -> tuple_class r = false -> itermatch w R MUnvTuple r = Some got ->
+  forall o, In o got <-> In o (map as_tuple (brute w R MUnvCPV r)).
+Proof.
+  intros w R r got Hwf Hcl Hq o.
+  assert (Hl : leaves r = []) by (unfold tuple_class in Hcl; destruct (leaves r); [reflexivity|discriminate]).
+  unfold itermatch in Hq. destruct (candidates w R r) as [cs|] eqn:Ec; [|discriminate]. injection Hq as <-.
+  rewrite filter_In, in_map_iff. split.
+  - intros [Hin Hm]. apply in_flat_map in Hin as [k [_ Hin]].
+    destruct (expand_in R MUnvTuple k o Hin) as [_ Hu].
+    destruct (universe_inv R MUnvTuple o Hu) as [c [ps [p [vs [Hc [Hp [_ [-> Hne]]]]]]]].
+    exists (PU c p). split; [reflexivity|]. unfold brute. apply filter_In. split.
+    + apply (universe_intro R MUnvCPV c ps p vs); auto.
+    + unfold matches in *. rewrite <- Hm. now apply eval_leaffree.
+  - intros [o' [<- Ho']]. unfold brute in Ho'. apply filter_In in Ho' as [Hu Hm].
+    destruct (universe_inv R MUnvCPV o' Hu) as [c [ps [p [vs [Hc [Hp [_ [-> Hne]]]]]]]]. cbn [as_tuple].
+    assert (Hu' : In (PT c p) (universe R MUnvTuple)) by (apply (universe_intro R MUnvTuple c ps p vs); auto).
+    destruct (universe_expand R Hwf MUnvTuple (PT c p) Hu') as [Hexp [Hcat Hpkg]]. cbn [okey fst snd] in *.
+    split.
+    + apply in_flat_map. exists (c, p). split; [|assumption]. exact (leaffree_candidates w R r cs c p Hl Hcat Hpkg Ec).
+    + unfold matches in *. rewrite <- Hm. now apply eval_leaffree.
+Qed.
